@@ -31,8 +31,14 @@ def run_demo(src, wt, meta):
     tests = list(src.glob("*_test.go"))
     if tests:
         text = json.dumps(meta)
-        m = re.search(r"(?:\./)?(lib/[a-z]+)/?", text)
+        # the package the demonstration belongs to: what its own `package` clause and the demo instructions say
+        # (the first lib/<pkg> of the whole meta text is often the CHANGED file's package, not the test's)
+        demo_text = json.dumps(meta.get("demo", "")) or text
+        m = re.search(r"(?:\./)?(lib/[a-z]+)/?", demo_text) or re.search(r"(?:\./)?(lib/[a-z]+)/?", text)
         pkg = m.group(1) if m else "lib/query"
+        pk = re.search(r"^package\s+(\w+)", tests[0].read_text(errors="replace"), re.M)
+        if pk and pk.group(1).replace("_test", "") != pkg.split("/")[-1] and (wt / "lib" / pk.group(1).replace("_test", "")).is_dir():
+            pkg = "lib/" + pk.group(1).replace("_test", "")
         tags = ["-tags", "verif"] if "verif" in text else []
         dst = wt / pkg / ("zz_seed_" + tests[0].name)
         shutil.copyfile(tests[0], dst)
